@@ -407,7 +407,9 @@ impl Biclique for AdjacencyMatrix {
         assert!(m > 0, "m = {m} must be greater than zero");
         assert!(n > 0, "n = {n} must be greater than zero");
 
-        let order = m + n;
+        let order = m
+            .checked_add(n)
+            .expect("a digraph has at most `usize::MAX` vertices");
         let mut digraph = Self::empty(order);
 
         for u in 0..m {
